@@ -951,7 +951,7 @@ def run(ctx):
         mt_sched, mt_free = 14, 2
     else:
         two_fault, exc_classes = 'full', EXC_CLASSES
-        mt_sched, mt_free = 60, 6
+        mt_sched, mt_free = 400, 24
 
     runner_holder = [Runner()]
     env_holder = [make_env(ctx.tmp(), 's%d' % ctx.shard, 0.5)]
